@@ -167,7 +167,7 @@ RESOLVER = {
     "C08": {"inv": ["C08", "C01", "C04", "C06"], "minv": ["C08"], "reps": (3, 6), "family": "C08", "life": True, "linv": ["C08life"], "random": [("redef", 2500, 30000), ("redeffail", 800, 10000)]},
     "C10": {"inv": ["C10", "C01", "C02", "C04", "C05", "C06"], "minv": ["C10"], "reps": (4, 8), "family": "none",
             "random": [("convcall", 3500, 35000), ("convert", 800, 8000)], "model": (600, 6000)},
-    "C16": {"inv": ["C16", "C03"], "minv": ["C16"], "reps": (6, 12), "family": "C16", "random": [("wild", 800, 8000), ("general", 500, 5000)], "model": (300, 3000)},
+    "C16": {"inv": ["C16", "C03", "OptsIntact"], "minv": ["C16"], "reps": (6, 12), "family": "C16", "random": [("wild", 800, 8000), ("general", 500, 5000)], "model": (300, 3000)},
     "C13": {"inv": ["C13"], "reps": (2, 4), "family": "C13", "life": True,
             "random": [("general", 2500, 25000), ("nosub", 1500, 15000), ("multi", 1000, 10000)]},
 }
@@ -341,7 +341,7 @@ def run_life(prop, tier, seed, keep=False):
             r = w.run_drive(["run", "-in", "scenarios.json", "-reps", "3", "-seed", str(seed), "-out", "trace.ndjson"])
             log(r.stderr.strip())
             summarize_trace(w.path("trace.ndjson"), ev, "")
-            rc = trace_validate(w, prop, ["C09", "C06"], "trace.ndjson", ev, label="redefine-scenarios")
+            rc = trace_validate(w, prop, ["C09", "C06", "OptsIntact"], "trace.ndjson", ev, label="redefine-scenarios")
         if rc == 0 and prop == "C11":
             # run-once functions of every form inside ordinary scenarios (a converter needed several times in one call)
             n = 2500 if tier == "quick" else 25000
